@@ -3,8 +3,15 @@
 Real runs of pack_partitions_to_parquet through the fault-injecting filesystem
 (harness/fsrec.py) with `_retry_args=dict(wait_fixed=0, stop_max_attempt_number=K)`:
 first a clean run records the filesystem call trace, then one run per (fault kind,
-position), a seeded sample of pairs, and faults that persist for r = 2 .. K+1
-consecutive attempts of the same call.
+position); at EVERY position whose call is retried a fault that persists on the same call
+until the budget is exhausted (r = K attempts: the call must raise -- and the repeat recover
+from that crash point -- or leave the fault-free tree; a wrapper that gives up quietly when its
+budget is spent shows only here); persistent faults within the budget on a seeded sample; a
+seeded sample of pairs.  Then other configurations of the call on setup M (harness/c19_util.py):
+no _retry_args, an s3fs-like filesystem (ls(refresh=), listing cache), a scheduler that
+re-submits a failed task (reaches the already-done shortcut of read_parquet_retry), the
+filesystem as a protocol string / an invalid value, and {uuid} temp directories with a repeat
+that draws a fresh uuid.
 
 Every run is judged on public observations (the PRIMARY verdict):
   * the call raised, or the whole scratch tree (every file classified by the rows it holds,
@@ -497,11 +504,13 @@ def run_setup(rep, st, col, tier):
     #      Kinds: OSError at every call; FileNotFoundError at every rm (rm_retry answers it with
     #      its existence re-check); stale listing at every ls; at the mutating calls
     #      raise-after-partial-effect and raise-after-complete-effect (quick: one of the two per
-    #      position, drawn from rep.rng; thorough: both, and r = K + 1 as well).
+    #      position, drawn from rep.rng; thorough: both, and r = K + 1 on a seeded sample).
     def retried(pos, kind):
         got = single.get((pos, kind))
         return got is None or not (got[0] and got[1] == 1)
 
+    # thorough: r = K + 1 as well, at these positions
+    beyond = set(rng.sample(range(1, L + 1), min(L, 12))) if tier != 'quick' else set()
     for pos in range(1, L + 1):
         op = o.trace[pos - 1][0]
         kinds = ['oserr']
@@ -516,7 +525,7 @@ def run_setup(rep, st, col, tier):
             if not retried(pos, kind):
                 rep.count('exhaust-skipped:single-fault-already-aborts')
                 continue
-            for r in ((st.K,) if tier == 'quick' else (st.K, st.K + 1)):
+            for r in ((st.K,) if tier == 'quick' or kind != 'oserr' or pos not in beyond else (st.K, st.K + 1)):
                 raised, nfired = go({pos: (kind, r)}, f'exhaust{r}')
                 rep.count(f'exhaust:{kind}:{op}:' + ('raised' if raised else 'returned'))
                 if nfired < min(r, st.K) and kind != 'after':
